@@ -172,8 +172,9 @@ TRead == /\ IsEvent("Read")
                       /\ \/ (IF isC THEN cfin ELSE sfin) /\ rpos[d] = wpos[d]
                          \* (what is still on its way to the reader may only be records that were damaged in flight: a record whose length field was
                          \*  raised beyond the rest of the stream never completes, and the reader sees the end of the stream inside it)
-                         \/ (IF isC THEN (\A j \in 1..Len(m2c) : ~m2c[j].ok) /\ s2m = <<>> /\ (seof \/ closed)
-                                     ELSE (\A j \in 1..Len(m2s) : ~m2s[j].ok) /\ c2m = <<>> /\ (ceof \/ closed))
+                         \*  -- whatever follows it in the stream is then swallowed as its body, so only the record at the head has to be a damaged one)
+                         \/ (IF isC THEN (IF m2c = <<>> THEN TRUE ELSE ~m2c[1].ok) /\ s2m = <<>> /\ (seof \/ closed)
+                                     ELSE (IF m2s = <<>> THEN TRUE ELSE ~m2s[1].ok) /\ c2m = <<>> /\ (ceof \/ closed))
                       /\ UNCHANGED <<rpos, cav, sav>>
                  [] OTHER ->
                       \* a failing read: the reader has discarded an unacceptable record, or the run is not honest
